@@ -375,9 +375,21 @@ def _drive(rep: Report, tier: str, seed: int, P: Any, d: Path, futs: dict[str, A
 def _selftest(rep: Report, P: Any, d: Path, batch: Any, get_enum: Any) -> None:
     """(i) corrupted accepted traces must be rejected; (ii) mutants of a reader must be rejected."""
     t, tl, tc = batch.accepted_seq, batch.accepted_len, batch.accepted_content
-    if t is None or tl is None or tc is None:
-        raise Machinery("no accepted session to run the binding self-test on "
-                        f"(seq={t is not None} len={tl is not None} content={tc is not None})")
+    # when the tree under test is so broken that no session of a kind was accepted, the
+    # self-test falls back to a hand-made session (checked below to be accepted itself)
+    synthetic = []
+    slog = [{"id": 1, "prio": 2}, {"id": 2, "prio": 8}, {"id": 3, "prio": 5}]
+    if t is None:
+        t = {"open": {"t": "Ok"}, "ops": [{"op": P.op("fwd", 5), "res": {"t": "Seq", "ids": [1, 3]}}], "content": [],
+             "_log": slog}
+        synthetic.append("seq")
+    if tl is None:
+        tl = {"open": {"t": "Ok"}, "ops": [{"op": P.op("len"), "res": {"t": "Len", "n": 3}}], "content": [], "_log": slog}
+        synthetic.append("len")
+    if tc is None:
+        tc = {"open": {"t": "Ok"}, "ops": [], "content": [{"api": "reader", "w": [104, 105], "r": [104, 105]}],
+              "_log": slog}
+        synthetic.append("content")
     sb = P.Batch(chunk=10**9, jobs=1)
     labels = []
     m_self = {"api": "selftest", "container": "-", "prefix": "-", "origin": "selftest"}
@@ -388,6 +400,8 @@ def _selftest(rep: Report, P: Any, d: Path, batch: Any, get_enum: Any) -> None:
         sb.add(t0["_log"], t2, m_self)
         labels.append(label)
 
+    for base, name in ((t, "seq"), (tl, "len"), (tc, "content")):
+        corrupt(base, lambda x: None, f"uncorrupted {name} session")
     corrupt(t, lambda x: x["ops"][-1]["res"]["ids"].reverse(), "order swapped")
     corrupt(t, lambda x: x["ops"][-1]["res"]["ids"].pop(), "last record dropped")
     corrupt(t, lambda x: x["ops"][-1]["res"]["ids"].append(x["ops"][-1]["res"]["ids"][0]), "record repeated")
@@ -417,10 +431,14 @@ def _selftest(rep: Report, P: Any, d: Path, batch: Any, get_enum: Any) -> None:
     sb.add(w, P.run_reader_session(c0, [P.op("fwd", 8, 0, 1)], reader_cls=OffByOneReader), m_mut)
     labels.append("mutant: offset table off by one")
     sb.finish()
-    accepted = [labels[i] for i in range(len(labels)) if sb.label(i) == "ok"]
+    rejected_base = [labels[i] for i in range(3) if sb.label(i) != "ok"]
+    if rejected_base:
+        raise Machinery(f"binding self-test: base sessions rejected by TLC: {rejected_base}")
+    accepted = [labels[i] for i in range(3, len(labels)) if sb.label(i) == "ok"]
     if accepted:
         raise Machinery(f"binding self-test: corrupted traces / mutants accepted by TLC: {accepted}")
     rep.extra["binding_selftest"] = {labels[i]: sb.label(i) for i in range(len(labels))}
+    rep.extra["binding_selftest_synthetic_bases"] = synthetic
 
 
 def replay(path: str) -> int:
